@@ -87,6 +87,21 @@ def d1(cx: Cx, ob: Ob) -> None:
         if outer.b != convs:
             if any(callee_name(x) in ("reversed", "sorted") for x in subterms(outer.b) if op(x) == "call"):
                 ob.violate(fn.qualname, where(fn, outer.line), f"chain iterates `{show(outer.b)[:50]}`: priority must follow the given order (earlier converters win)", detail="order")
+            elif op(outer.b) == "slice" and not (op(c[1]) == "attr" and op(c[1][1]) == "call" and op(c[1][1][1]) == "cls" and c[1][1][1][1] == CONV and ((c[1][1][2] and op(c[1][1][2][0]) in ("list", "tuple") and not c[1][1][2][0][1]) or op(dict(c[1][1][3]).get("records")) in ("list", "tuple"))):
+                # the accumulator is not an empty converter: the converters left out of the loop may have been
+                # taken over in another way (copied wholesale)
+                from ..rules import guard_atoms as _ga
+
+                if any(a_ == ("param", "case_sensitive") and pol_ is True for a_, pol_ in _ga(ctx.guards)):
+                    ob.undecide(f"chain folds only `{show(outer.b)[:40]}` into an accumulator that does not start empty (`{show(c[1][1])[:50]}`): whether it already holds the rest is not decided")
+                else:
+                    ob.violate(
+                        fn.qualname,
+                        where(fn, outer.line),
+                        f"chain folds only `{show(outer.b)[:40]}` through add_record and takes the other converter(s) over as they are (`{show(c[1][1])[:50]}`) whatever case_sensitive is: records of that converter whose prefixes are equal up to case are not merged with case_sensitive=False",
+                        witness="chain([c], case_sensitive=False) with records CHEBI and chebi in c keeps both",
+                        detail="subset",
+                    )
             elif op(outer.b) == "slice":
                 ob.violate(fn.qualname, where(fn, outer.line), f"chain iterates only `{show(outer.b)[:50]}` of the converters", detail="subset")
             else:
@@ -100,12 +115,35 @@ def d1(cx: Cx, ob: Ob) -> None:
         rec = c[2][0] if c[2] else kw.get("record")
         if not any(x == inner.a for x in subterms(rec)):
             ob.violate(fn.qualname, where(fn, ev.line), f"chain adds `{show(rec)[:50]}`, not the record being iterated", detail="record-arg")
-        if any(g.kind == "guard" for g in ctx.guards if g.line >= outer.line):
+        acc0 = c[1][1] if op(c[1]) == "attr" else None
+        body = ctx.loops[-1].body if ctx.loops and ctx.loops[-1].body else None
+
+        def _adds(p_, via_add_record):
+            for e2 in p_.events:
+                for t2 in (e2.a, e2.b):
+                    if not isinstance(t2, tuple):
+                        continue
+                    for c2 in subterms(t2):
+                        if op(c2) == "call" and op(c2[1]) == "attr":
+                            if c2[1][2] == "add_record" and c2[1][1] == acc0:
+                                return True
+                            if not via_add_record and c2[1][2] in ("append", "insert") and c2[1][1] == ("attr", acc0, "records"):
+                                return True
+            return False
+
+        every_path_adds = body is not None and all(_adds(p_, False) for p_ in body if p_.out is None or p_.out[0] == "continue")
+        if any(g.kind == "guard" for g in ctx.guards if g.line >= outer.line) and every_path_adds:
+            # the record reaches the accumulator on every path of the loop body, on some of them not through
+            # add_record: whether the test that selects the fast path implies "nothing to merge" is not a shape
+            gs = [g for g in ctx.guards if g.kind == "guard" and g.line >= outer.line]
+            ob.undecide(f"chain appends records directly (bypassing add_record) when not `{show(gs[0].a)[:60]}`: that the test implies there is nothing to merge is not decided")
+        elif any(g.kind == "guard" for g in ctx.guards if g.line >= outer.line):
             gs = [g for g in ctx.guards if g.kind == "guard" and g.line >= outer.line]
             ob.violate(fn.qualname, where(fn, gs[0].line), f"chain adds records only under condition `{show(gs[0].a)[:60]}`: some records of the inputs are dropped", detail="conditional-add")
         # one accumulator returned
         acc = c[1][1] if op(c[1]) == "attr" else None
-        rets = [t for t, _ in s.returns()]
+        # the value returned on the path(s) this call site lies on
+        rets = [p_.out[1] for p_ in s.paths if p_.out is not None and p_.out[0] == "return" and (p_ is ctx.path or any(lp in p_.events for lp in ctx.loops[:1]))]
         if rets and not all(t == acc for t in rets if not is_const(t, None)):
             ob.violate(fn.qualname, fn.where, "chain does not return the accumulator it folds into", detail="accumulator")
 
